@@ -229,6 +229,14 @@ impl<
         }
     }
 
+    /// Returns true if the slot of `key` is held by an entry with a different conflict hash.
+    pub fn held_by_other(&self, key: &u64, conflict: u64) -> bool {
+        self.shards[((*key) as usize) % NUM_OF_SHARDS]
+            .read()
+            .get(key)
+            .map_or(false, |item| conflict != 0 && conflict != item.conflict)
+    }
+
     pub fn expiration(&self, key: &u64) -> Option<Time> {
         self.shards[((*key) as usize) % NUM_OF_SHARDS]
             .read()
